@@ -773,13 +773,6 @@ func SetConforms(typeCtx map[ast.Variable]ast.BaseTerm, left ast.BaseTerm, right
 		}
 		return SetConforms(typeCtx, expanded, right)
 	}
-	if rightApplyOk && rightApply.Function.Symbol == TaggedUnionType.Symbol {
-		expanded, err := expandTaggedUnionForBounds(rightApply)
-		if err != nil {
-			return false
-		}
-		return SetConforms(typeCtx, left, expanded)
-	}
 	if leftApplyOk && leftApply.Function.Symbol == UnionType.Symbol {
 		for _, leftItem := range leftApply.Args {
 			if !SetConforms(typeCtx, leftItem, right) {
@@ -787,6 +780,25 @@ func SetConforms(typeCtx map[ast.Variable]ast.BaseTerm, left ast.BaseTerm, right
 			}
 		}
 		return true
+	}
+	if rightApplyOk && rightApply.Function.Symbol == TaggedUnionType.Symbol {
+		expanded, err := ExpandTaggedUnionType(rightApply)
+		if err != nil {
+			return false
+		}
+		if SetConforms(typeCtx, left, expanded) {
+			return true
+		}
+		// The bounds checker infers /name for the tag of a struct literal. Only such an
+		// inferred struct type is compared with the less precise expansion.
+		if !hasNameTypedTagField(left, rightApply) {
+			return false
+		}
+		expanded, err = expandTaggedUnionForBounds(rightApply)
+		if err != nil {
+			return false
+		}
+		return SetConforms(typeCtx, left, expanded)
 	}
 	if rightApplyOk && rightApply.Function.Symbol == UnionType.Symbol {
 		for _, rightItem := range rightApply.Args {
@@ -977,6 +989,20 @@ func expandTupleType(args []ast.BaseTerm) ast.BaseTerm {
 		res = NewPairType(args[j], res)
 	}
 	return res
+}
+
+// hasNameTypedTagField returns true if left is a struct type whose field for
+// the tag field of the given tagged union has type /name.
+func hasNameTypedTagField(left ast.BaseTerm, taggedUnion ast.BaseTerm) bool {
+	if !IsStructTypeExpression(left) {
+		return false
+	}
+	tagField, err := TaggedUnionTagField(taggedUnion)
+	if err != nil {
+		return false
+	}
+	fieldTpe, err := StructTypeField(left, tagField)
+	return err == nil && fieldTpe.Equals(ast.NameBound)
 }
 
 // UpperBound returns upper bound of set expressions.
